@@ -29,3 +29,10 @@ Theorem C06_info_warnings_are_first_assertions : forall cfg now r i,
   exists a rest, r_assertions r = a :: rest /\ verify_conditions cfg now a = Ok (ai_warning_info i).
 Proof. exact info_warnings_first. Qed.
 Print Assumptions C06_info_warnings_are_first_assertions.
+
+(* ---- tie to the source text (GenFuncs.v is re-translated from /repo's validate.go on every run) ---- *)
+From V Require Import GenPrelude GenFuncs P_GenFuncs.
+Theorem C06_source_VerifyAssertionConditions_is_the_model : forall cfg now a,
+  G_VerifyAssertionConditions cfg now a = PVal (verify_conditions cfg now a).
+Proof. exact G_VerifyAssertionConditions_eq. Qed.
+Print Assumptions C06_source_VerifyAssertionConditions_is_the_model.
